@@ -788,4 +788,11 @@ K('C14', 'condition-falsy-evidence', [(F, "        slices = [evidence[a] if a in
                                          "        slices = [evidence.get(a) or slice(None) for a in self.domain]\n")], 'index-by-name')
 T('C14', 'condition-through-dict-get', [(F, "        slices = [evidence[a] if a in evidence else slice(None) for a in self.domain]\n",
                                            "        slices = [evidence.get(a, slice(None)) for a in self.domain]\n")])
+_FD_OLD = "        for cl in cliques:\n            mu = data.project(cl)\n            ans[cl] = Factor(mu.domain, mu.datavector())\n"
+_FD_NEW = ("        tables = {}\n        for cl in cliques:\n            key = %s\n            if key not in tables:\n                mu = data.project(cl)\n"
+           "                tables[key] = Factor(mu.domain, mu.datavector())\n            ans[cl] = tables[key]\n")
+K('C19', 'tables-remembered-per-attribute-set', [(CV, _FD_OLD, _FD_NEW % "frozenset([cl] if type(cl) is str else cl)")], 'memo-key')
+T('C19', 'tables-remembered-per-ordered-clique', [(CV, _FD_OLD, _FD_NEW % "(cl,) if type(cl) is str else tuple(cl)")])
+K('C19', 'tables-in-sorted-attribute-order', [(CV, "            mu = data.project(cl)\n            ans[cl] = Factor(mu.domain, mu.datavector())\n",
+                                                 "            mu = data.project(sorted(cl))\n            ans[cl] = Factor(mu.domain, mu.datavector())\n")], 'loss-form')
 
